@@ -93,12 +93,15 @@ def synth_corners_2d(cx, cy):
     return cells
 
 
-LON_POLICY = {'wide': False}
+import os as _os
+
+LON_POLICY = {'wide': _os.environ.get('VMON_WIDE_LON') == '1'}
 
 
 def set_wide_longitudes(flag=True):
     """Property drivers may switch on datasets in the 0..360 longitude convention / straddling 180 degrees."""
     LON_POLICY['wide'] = bool(flag)
+    _os.environ['VMON_WIDE_LON'] = '1' if flag else '0'
 
 
 def lon_origin(rng):
